@@ -888,7 +888,9 @@ fn collect_expression_transfers(
             },
             _ => {}
         },
-        Expression::Unary(Op::BitNot | Op::Add | Op::Sub, operand, _) => {
+        // Unary minus is not a bit-parallel copy (it carries), so it is not a
+        // packed transfer; it falls through to the generic arm below.
+        Expression::Unary(Op::BitNot | Op::Add, operand, _) => {
             collect_expression_transfers(operand, requested, target_id, target, ctx, transfers);
         }
         Expression::Binary(left, Op::BitAnd | Op::BitOr | Op::BitXor | Op::BitXnor, right, _) => {
